@@ -588,7 +588,8 @@ class Range(Terminal):
         gen.writeln("# <Range>")
 
         pattern = rf"[{re.escape(self.start)}-{re.escape(self.stop)}]"
-        re_var = gen.constant("RE", f"re.compile({pattern!r}, re.I)")
+        # Character ranges are case sensitive, as in `__init__`.
+        re_var = gen.constant("RE", f"re.compile({pattern!r})")
 
         gen.writeln(f"if match := {re_var}.match(state.input, state.pos):")
         with gen.block():
